@@ -36,6 +36,7 @@ type Signer struct {
 	Sites     []*SignSite
 	RunRules  map[*ssa.Function]ssa.CallInstruction // endpoint -> its RunRules invoke
 	PreCheck  *ssa.Function
+	Wrapper map[*ssa.Function]*ssa.Function // core endpoint -> exported wrapper (when the endpoint is a thin wrapper)
 	Phase     map[*ssa.Function]*ssa.Call // endpoint -> its call of a package helper that runs the pre-checks (nil: the endpoint runs them itself)
 	ok        bool
 }
@@ -148,6 +149,86 @@ func (s *Signer) ListOrigin(E *ssa.Function, root ssa.Value) ssa.Value {
 	return mk
 }
 
+// forwardingCore: f calls exactly one function of its package that (with its closures) runs the rules, passes it only its own
+// parameters (plus values it made itself that are not of the request: loggers, times), and every return after that call hands
+// back the call's results position by position; returns before it carry no signature. Returns that function, or nil.
+func forwardingCore(f *ssa.Function, pkgPath string) *ssa.Function {
+	var call *ssa.Call
+	for _, b := range f.Blocks {
+		for _, ins := range b.Instrs {
+			c, ok := ins.(*ssa.Call)
+			if !ok || c.Call.IsInvoke() {
+				continue
+			}
+			g := c.Call.StaticCallee()
+			if g == nil || g.Blocks == nil || prog.PkgPathOf(g) != pkgPath {
+				continue
+			}
+			runs := false
+			for _, h := range WithClosures(g) {
+				if len(Calls(h, func(ci ssa.CallInstruction) bool { return IsInvokeOf(ci, pkgRuler, "Service", "RunRules") })) > 0 {
+					runs = true
+				}
+			}
+			if !runs {
+				continue
+			}
+			if call != nil {
+				return nil
+			}
+			call = c
+		}
+	}
+	if call == nil {
+		return nil
+	}
+	g := call.Call.StaticCallee()
+	// the request's parameters are handed on unchanged: every parameter of f other than the context reaches g as itself
+	for _, p := range f.Params {
+		if an.TypeStr(p.Type()) == "context.Context" {
+			continue
+		}
+		passed := false
+		for _, a := range call.Call.Args {
+			if a == ssa.Value(p) {
+				passed = true
+			}
+		}
+		if !passed {
+			return nil
+		}
+	}
+	nres := g.Signature.Results().Len()
+	if nres != f.Signature.Results().Len() {
+		return nil
+	}
+	for _, ret := range an.Returns(f) {
+		if an.Reachable(an.After(call), ret) {
+			for i := 0; i < nres; i++ {
+				var want ssa.Value
+				if nres == 1 {
+					want = call
+				} else {
+					ex, ok := an.Result(ret, i).(*ssa.Extract)
+					if !ok || ex.Tuple != ssa.Value(call) || ex.Index != i {
+						return nil
+					}
+					continue
+				}
+				if an.Result(ret, i) != want {
+					return nil
+				}
+			}
+			continue
+		}
+		// before the call: no signature / list leaves (second result nil)
+		if nres >= 2 && !isNilConst(an.Result(ret, 1)) {
+			return nil
+		}
+	}
+	return g
+}
+
 var signerEndpoints = []string{"SignGeneric", "SignBeaconProposal", "SignBeaconAttestation", "SignBeaconAttestations", "Multisign"}
 
 func (c *Ctx) Signer(rule string) *Signer {
@@ -168,6 +249,27 @@ func (c *Ctx) Signer(rule string) *Signer {
 		s.Endpoints[n] = f
 	}
 	pkgPath := s.Impl.Obj().Pkg().Path()
+	// an endpoint that is a thin wrapper (span, timing, one monitor call) around an unexported core function: the core is the
+	// endpoint the rules speak about, provided the wrapper hands its own parameters on and returns exactly the core's results
+	for _, n := range signerEndpoints {
+		f := s.Endpoints[n]
+		hasRun := false
+		for _, g := range WithClosures(f) {
+			if len(Calls(g, func(ci ssa.CallInstruction) bool { return IsInvokeOf(ci, pkgRuler, "Service", "RunRules") })) > 0 {
+				hasRun = true
+			}
+		}
+		if hasRun {
+			continue
+		}
+		if core := forwardingCore(f, pkgPath); core != nil {
+			s.Endpoints[n] = core
+			if s.Wrapper == nil {
+				s.Wrapper = map[*ssa.Function]*ssa.Function{}
+			}
+			s.Wrapper[core] = f
+		}
+	}
 	// functions invoking AccountSigner.Sign
 	for _, fn := range c.P.ModuleFuncs() {
 		if prog.PkgPathOf(fn) != pkgPath {
@@ -253,6 +355,16 @@ func (c *Ctx) Signer(rule string) *Signer {
 	return s
 }
 
+// NameOf is the name of the service method an endpoint function implements (its own name, or its wrapper's).
+func (s *Signer) NameOf(E *ssa.Function) string {
+	for n, f := range s.Endpoints {
+		if f == E {
+			return n
+		}
+	}
+	return E.Name()
+}
+
 func (s *Signer) OK() bool { return s != nil && s.ok }
 
 // verdictLoad reports whether v is a load of <RunRules result>[idx]; returns idx.
@@ -314,7 +426,7 @@ func (c *Ctx) SignIffApproved(prop string, only map[string]bool) {
 	enum := c.EnumValues(resT)
 	n := 0
 	for _, site := range s.Sites {
-		if only != nil && !only[site.Endpoint.Name()] {
+		if only != nil && !only[s.NameOf(site.Endpoint)] {
 			continue
 		}
 		n++
